@@ -285,14 +285,42 @@ def _on_line(code, line):
     return None
 
 
+_jump_line = {}
+
+
+def _on_jump(code, offset, dest):
+    """Backward jumps (loop back-edges) are where CPython's eval loop honours a pending GIL switch
+    request, also in the middle of a source line (`[d for (f, d) in xs if f is y]`, a `while`
+    on one line): they are pre-emption points like line starts."""
+    short = TARGET_FILES.get(code.co_filename)
+    if short is None or dest >= offset:
+        return sys.monitoring.DISABLE      # per location: a forward jump here is always forward
+    s = core.ACTIVE
+    if s is not None and s.line_mode and not s.aborting:
+        c = s.cur
+        if c is not None and c.ident == _thread.get_ident():
+            key = (code, offset)
+            ln = _jump_line.get(key)
+            if ln is None:
+                ln = 0
+                for (a, b, l) in code.co_lines():
+                    if a <= offset < b:
+                        ln = l or 0
+                        break
+                _jump_line[key] = ln
+            s.line_point((short, ln, "loop"))
+    return None
+
+
 def line_monitoring(on):
     global _mon_ready
     mon = sys.monitoring
     if not _mon_ready:
         mon.use_tool_id(TOOL, "verif-sim")
         mon.register_callback(TOOL, mon.events.LINE, _on_line)
+        mon.register_callback(TOOL, mon.events.JUMP, _on_jump)
         _mon_ready = True
-    mon.set_events(TOOL, mon.events.LINE if on else 0)
+    mon.set_events(TOOL, (mon.events.LINE | mon.events.JUMP) if on else 0)
 
 
 def run_sim(sim, main_fn):
